@@ -13,12 +13,23 @@ the class of the returned object and the error class. Used only as an entry of c
 
 Families (`op`): x_spans, x_apply (span reductions incl. the _filter and _indexed forms), x_concat, x_filter, x_index, x_sort,
 x_map, x_merge, x_smerge (Session merge helpers, get_index, join), x_groupby, x_aggregate, x_isin, x_unique, x_journal, x_import,
-x_export, x_arith, x_date.
+x_export, x_arith, x_date, x_ops (module-level kernels nothing else calls). A generated case is a BATCH (`op` = x_batch) of
+sub-cases that call the same kernels at the same numba signatures, so that one worker process compiles each signature instead
+of every worker; corpus cases (corpus/C11) are single. `mode_diff_ok` / `match_finding` look into the batch: a batch is a known
+finding only if EVERY differing sub-case matches the same open finding (`match_one`), any other difference is reported.
+`python -m checks.harness.c11x <replay.json>` re-runs a reported case in both modes and prints the differing sub-cases.
 
-Inputs on which the two modes are ALLOWED to differ are not generated: an out-of-range subscript inside a compiled kernel is
-undefined behaviour when compiled and an IndexError when interpreted (spans that are not non-decreasing or end beyond the
-column, an index beyond the column passed to an `ops.*` kernel that does not check it, a caller-supplied destination that is too
-short). The few remaining legitimate differences are listed in `mode_diff_ok` with their exact reason."""
+NOT generated, because the two modes are allowed to differ or the call is not a valid one:
+  * an out-of-range subscript inside a compiled kernel - undefined behaviour when compiled, IndexError when interpreted: spans
+    that decrease or end beyond the column, an index beyond the column handed to an `ops.*` kernel that does not check it, a
+    caller-supplied destination that is too short, `ordered_get_last_as_filter` of an empty array (`result[-1]`);
+  * arguments of a type the function does not document and numba cannot type (numba raises TypingError / TypeError at the
+    call, the interpreted numpy code duck-types the value or raises another class): a str where bytes are stored
+    (`empty_value='zz'` for a fixed-string array; bytes / uint8 arrays ARE generated), a numpy.bytes_ scalar as `empty_value`
+    (numba cannot unbox it, whatever the kernel; Python bytes ARE generated). Both were observed on the unchanged tree and are
+    named in the builder's report; no public caller passes `empty_value`;
+  * `chunk_row_size=1` for the CSV import (a header-only file then raises ValueError in BOTH modes - not a mode matter).
+"""
 import os
 
 PROPERTY = "C11"
